@@ -67,19 +67,22 @@ reg('C19', 'exploration', 'runtime monitor: per-entry predicate oracle + metamor
 reg('C05', 'exploration', 'runtime monitor: metamorphic relations over paired callVariant executions (inclusion + attribution predicates)',
     'The same generated input is executed under ordered pairs of configurations / record sets / file sets; the smaller run must be included in the larger and '
     'added peptides must be attributable (sequence-level limit predicate, SECT/W2F/ORF identifiers, not demanded without the added record). Includes dense inputs '
-    'that are too large for haplotype enumeration, compared by strict inclusion with limits disabled.', TB, 'DESIGN.md section 6 C05')
+    'that are too large for haplotype enumeration, compared by strict inclusion with limits disabled. Limit chains also take their values from peptides of the output and '
+    'from canonical peptides (limits exactly on a peptide); file-set pairs are repeated through the CLI with --threads 2/3/4.', TB, 'DESIGN.md section 6 C05')
 
 reg('C06', 'exploration', 'runtime monitor: metamorphic equality over paired executions that differ in one schedule/layout factor (CLI with ppft workers, hash seeds, file layouts, .idx, index directory)',
     'One logical input is executed under different --threads values (real ppft worker processes, batch shapes with skipped transcripts at first/middle/last '
     'position), GVF partitions/orders with and without indexGVF files, raw vs generateIndex reference and PYTHONHASHSEED values; every output must equal '
-    'the --threads 1 single-file base run. Thorough enumerates the (n_tx<=9, skipped subset, threads<=8) shapes.', TB + 'The base run is tied to the definitional oracle by C01/C02.',
+    'the --threads 1 single-file base run. Thorough enumerates the (n_tx<=9, skipped subset, threads<=8) shapes. Hash seeds, file layouts (one record per file, reversed halves) '
+    'and raw-vs-index references (free cleavage settings) are also varied on rich engine cases (several units per transcript, fusions, nested AS, circRNA, paralogous genes).', TB + 'The base run is tied to the definitional oracle by C01/C02.',
     'DESIGN.md section 6 C06')
 reg('C07', 'fault_enumeration', 'runtime monitor with source-free failpoints: every single fault and pairs over the processing units, in-process and in ppft workers',
     'Failpoints raise inside call_peptide_main / _fusion / _circ_rna for a chosen set of units; recording wrappers capture what every unit returns. With '
     '--skip-failed: completion, tally, untouched surviving units, no loss of their peptides, absence of the failed units\' exclusive peptides; without it: '
     'abort and no FASTA. All single faults (and pairs, triples in thorough) of each generated case are enumerated. CLI runs with --threads 1/2/3 and 1-2 failpoints outside '
     'the last transcript also check the printed tally. Natural data faults (a record that invalidates the whole variant series of one transcript) are generated as well: the run must '
-    'complete, tally one invalid transcript, never call its units and leave units not involving it unchanged.', TB + 'Injected faults are exceptions at the entry of the per-unit callers; '
+    'complete, tally one invalid transcript, never call its units and leave units not involving it unchanged. Timeout faults: the first attempt of one transcript '
+    'times out (injected) and is retried down the limit ladder; units of the other transcripts must be unchanged.', TB + 'Injected faults are exceptions at the entry of the per-unit callers; '
     'a natural fault the tool tolerates (run without --skip-failed completes) is not judged.',
     'DESIGN.md section 6 C07')
 reg('C08', 'exploration', 'runtime monitor: two-sided reference-model oracle (own transcript selection + ATG-ORF digest) and ORF-FASTA invariants over generated references',
